@@ -38,3 +38,84 @@ def form_consts():
             "end SwimVerif.Generated\n")
 
 EXTRACTORS = {"FormConsts": form_consts}
+
+
+# ------------------------------------------------------------------------------------------------------------------
+# Coverage side condition: every hand-written `StructuralWritable` / `RecognizerReadable` impl of swimos_form must be
+# exercised by at least one entry of the harness battery (registry of harness/core/src/bin/sv-c16.rs). A new impl in the
+# source that is not listed here, or a listed battery entry that no longer exists, fails the extraction (= the check).
+IMPL_COVERAGE = {
+    # write side: `impl .. StructuralWritable for <X>`
+    "W:&T": ["S01"],                      # every by-reference write goes through it (write_attr / write_slot of fields)
+    "W:&mut T": ["S01"],                  # same blanket forwarding impl (no separate observable)
+    "W:()": ["Lunit", "S37"], "W:i32": ["Pi32"], "W:i64": ["Li64"], "W:u32": ["Lu32"], "W:u64": ["Pu64"],
+    "W:usize": ["Lusize", "X09"], "W:NonZeroUsize": ["Lnz", "X09"], "W:f64": ["Lf64", "X01"], "W:bool": ["Pbool"],
+    "W:BigInt": ["Lbigint", "X06"], "W:BigUint": ["Lbiguint", "X09"], "W:String": ["Ptext"],
+    "W:&'a str": ["S01"],                 # slot keys of every derived struct are written as &str
+    "W:Text": ["Ltext", "X09"], "W:RouteUri": ["Luri", "X09"], "W:Arc<T>": ["Larc", "X09"],
+    "W:Rc<T>": [],                        # write-only (no RecognizerReadable): cannot be a Form; not exercised
+    "W:Blob": ["Lblob", "X05", "X08"], "W:Vec<u8>": ["X08"], "W:&[u8]": ["X08"], "W:Box<[u8]>": ["X08"],
+    "W:Value": ["Lvalue", "X02", "X03"], "W:Vec<T>": ["Plist", "V:S01"], "W:Option<T>": ["Popt", "O:S01"],
+    "W:HashMap<K, V, S>": ["X04", "M:S01", "Kmap2", "KmapS", "KmapV", "KmapE", "KmapO", "X11", "X12"],
+    "W:BTreeMap<K, V>": [],               # write-only (no RecognizerReadable): cannot be a Form; not exercised
+    "W:Timestamp": ["Ltime", "X09", "X10"], "W:Quantity<T>": ["Lquant", "Lquant2", "X09"],
+    "W:Duration": ["Ldur", "X09", "X10", "Ptup1"], "W:RetryStrategy": ["Lretry", "X09"],
+    "W:tuple1": ["Ptup1"], "W:tuple2": ["Ptup2", "X12"], "W:tuple3": ["Ptup3"], "W:tuple12": ["Ptup12"],
+    # read side: `impl .. RecognizerReadable for <X>` / simple_readable!(X, ..)
+    "R:()": ["Lunit"], "R:i32": ["Pi32"], "R:i64": ["Li64"], "R:u32": ["Lu32"], "R:u64": ["Pu64"],
+    "R:usize": ["Lusize"], "R:NonZeroUsize": ["Lnz"], "R:f64": ["Lf64"], "R:BigInt": ["Lbigint"],
+    "R:BigUint": ["Lbiguint"], "R:String": ["Ptext"], "R:Text": ["Ltext"], "R:Vec<u8>": ["X08"], "R:bool": ["Pbool"],
+    "R:Blob": ["Lblob", "X08"], "R:Box<[u8]>": ["X08"], "R:Arc<T>": ["Larc"], "R:Value": ["Lvalue"],
+    "R:RetryStrategy": ["Lretry"], "R:Quantity<T>": ["Lquant", "Lquant2"], "R:Duration": ["Ldur"],
+    "R:RouteUri": ["Luri"], "R:Timestamp": ["Ltime"], "R:Vec<T>": ["Plist"], "R:Option<T>": ["Popt"],
+    "R:HashMap<K, V>": ["X04", "Kmap2", "KmapS", "KmapV", "KmapE", "KmapO"],
+    "R:tuple1": ["Ptup1"], "R:tuple2": ["Ptup2"], "R:tuple3": ["Ptup3"], "R:tuple12": ["Ptup12"],
+}
+# tuple arities 4..11 are instances of the same macro body as 2, 3 and 12
+TUPLE_MACRO_ARITIES = list(range(1, 13))
+
+
+def form_impls():
+    import os
+    found = []
+    w1 = src("api/swimos_form/src/structural/write/mod.rs")
+    w2 = src("api/swimos_form/src/structural/write/impls.rs")
+    for t in (w1, w2):
+        for m in re.finditer(r"^impl(?:<[^>]*>)? StructuralWritable for ([^\n{]+?)\s*(?:where[^{]*)?\{", t, re.M):
+            found.append("W:" + m.group(1).strip())
+    for m in re.finditer(r"^map_impl!\((\w+<[^)]*>)\);", w1, re.M):
+        found.append("W:" + m.group(1))
+    arw = sorted(int(a) for a in re.findall(r"^impl_writable_tuple! \{ (\d+) =>", w1, re.M))
+    r1 = src("api/swimos_form/src/structural/read/recognizer/mod.rs")
+    r2 = src("api/swimos_form/src/structural/read/recognizer/impls.rs")
+    for t in (r1, r2):
+        for m in re.finditer(r"^impl(?:<[^>]*>)? RecognizerReadable for ([^\n{]+?)\s*(?:where[^{]*)?\{?$", t, re.M):
+            found.append("R:" + m.group(1).strip())
+        for m in re.finditer(r"^simple_readable!\(([^,]+(?:<[^>]*>)?), \w+\);", t, re.M):
+            found.append("R:" + m.group(1).strip())
+    arr = sorted(int(a) for a in re.findall(r"^impl_readable_tuple! \{ (\d+) =>", r2, re.M))
+    if arw != TUPLE_MACRO_ARITIES or arr != TUPLE_MACRO_ARITIES:
+        raise ExtractError(f"tuple impl arities changed: write {arw}, read {arr}")
+    found = [f for f in found if not f.startswith("W:WritableRef") and "HeaderWithBody" not in f and "SimpleHeader" not in f]
+    unknown = sorted(set(found) - set(IMPL_COVERAGE))
+    if unknown:
+        raise ExtractError("Form impls in swimos_form not covered by the C16 battery (add battery entries and list them "
+                           "in tools/extractors/c16.py IMPL_COVERAGE): " + ", ".join(unknown))
+    gone = sorted(k for k in IMPL_COVERAGE if not k[2:].startswith("tuple") and k not in found)
+    if gone:
+        raise ExtractError("impls listed in IMPL_COVERAGE no longer in the source: " + ", ".join(gone))
+    here = os.path.dirname(os.path.abspath(__file__))
+    harness = open(os.path.join(here, "..", "..", "harness", "core", "src", "bin", "sv-c16.rs"), encoding="utf-8").read()
+    reg = set(re.findall(r'"(\w+)" => ', harness))
+    missing = sorted({n for ns in IMPL_COVERAGE.values() for n in ns if n.split(":")[-1] not in reg})
+    if missing:
+        raise ExtractError("battery entries named in IMPL_COVERAGE are not in the harness registry: " + ", ".join(missing))
+    rows = ",\n  ".join('("%s", [%s])' % (k, ", ".join('"%s"' % n for n in IMPL_COVERAGE[k])) for k in sorted(found))
+    return (HEADER + "namespace SwimVerif.Generated\n"
+            "/-- every hand-written Form impl found in swimos_form (W: write side, R: read side) with the battery entries\n"
+            "that exercise it; an empty list = write-only type that cannot be a `Form` (Rc, BTreeMap) -/\n"
+            f"def formImpls : List (String × List String) := [\n  {rows}]\n"
+            "end SwimVerif.Generated\n")
+
+
+EXTRACTORS["FormImpls"] = form_impls
